@@ -92,30 +92,50 @@ func (fc *fakeChain) Signing() chain.Signing { return fc.signing }
 // the handler is registered and when the follower loop *starts processing* the sentinel
 // (Payload() is the first thing the loop calls on a message), i.e. when every earlier
 // message has been fully processed. It changes neither content nor order of delivery.
-type spyChannel struct {
-	net.BroadcastChannel
+type spyState struct {
 	nonce      uint64
 	registered chan struct{}
 	seen       chan struct{}
 	once       sync.Once
 }
 
+type spyChannel struct {
+	net.BroadcastChannel
+	mu  sync.Mutex
+	cur *spyState
+}
+
+func (s *spyChannel) arm() *spyState {
+	st := &spyState{
+		nonce:      atomic.AddUint64(&nonceCtr, 1),
+		registered: make(chan struct{}),
+		seen:       make(chan struct{}),
+	}
+	s.mu.Lock()
+	s.cur = st
+	s.mu.Unlock()
+	return st
+}
+
 type spyMsg struct {
 	net.Message
-	s *spyChannel
+	st *spyState
 }
 
 func (m *spyMsg) Payload() interface{} {
 	p := m.Message.Payload()
-	if o, ok := p.(*otherMsg); ok && o.Nonce == m.s.nonce {
-		m.s.once.Do(func() { close(m.s.seen) })
+	if o, ok := p.(*otherMsg); ok && o.Nonce == m.st.nonce {
+		m.st.once.Do(func() { close(m.st.seen) })
 	}
 	return p
 }
 
 func (s *spyChannel) Recv(ctx context.Context, h func(m net.Message)) {
-	s.BroadcastChannel.Recv(ctx, func(m net.Message) { h(&spyMsg{m, s}) })
-	close(s.registered)
+	s.mu.Lock()
+	st := s.cur
+	s.mu.Unlock()
+	s.BroadcastChannel.Recv(ctx, func(m net.Message) { h(&spyMsg{m, st}) })
+	close(st.registered)
 }
 
 var (
@@ -173,7 +193,7 @@ func parseMsgs(s string) ([]msg, bool) {
 			return nil, false
 		}
 		m := msg{kind: hx.Atoi(p[0]), net: hx.Atoi(p[1]), sid: hx.Atoi(p[2]), blk: hx.AtoU64(p[3]), w: hx.Atoi(p[4]), act: hx.Atoi(p[5])}
-		if m.net < 0 || m.net >= pool || m.sid < 0 || m.sid > 255 || m.act < 0 || m.act > 5 || m.w < 0 || m.w > 255 {
+		if m.kind < 0 || m.kind > 2 || m.net < 0 || m.net >= pool || m.sid < 0 || m.sid > 255 || m.act < 0 || m.act > 5 || m.w < 0 || m.w > 255 {
 			return nil, false
 		}
 		out = append(out, m)
@@ -246,37 +266,21 @@ type result struct {
 	panicked interface{}
 }
 
-func exec(op string) (string, string) {
-	initOnce.Do(setup)
-	f := strings.Fields(op)
-	if len(f) != 7 || f[0] != "follow" {
-		return "bad-op", "bad"
-	}
-	seatIDs := hx.ParseInts(f[1])
-	self, leader := hx.Atoi(f[2]), hx.Atoi(f[3])
-	block := hx.AtoU64(f[4])
-	msgs, ok := parseMsgs(f[6])
-	if !ok || self < 0 || self >= pool || leader < 0 || leader >= pool || len(seatIDs) > 255 || len(msgs) > 200 {
-		return "bad-op", "bad"
-	}
+type follower struct {
+	ex  *tbtc.VerifC24Executor
+	spy *spyChannel
+	pkh [20]byte
+}
+
+func newFollower(seatIDs []int, self int) (*follower, bool) {
 	var seats []chain.Address
 	for _, s := range seatIDs {
 		if s < 0 || s >= pool {
-			return "bad-op", "bad"
+			return nil, false
 		}
 		seats = append(seats, opAddr[s])
 	}
-	var allowed []tbtc.WalletActionType
-	for _, a := range hx.ParseInts(f[5]) {
-		allowed = append(allowed, tbtc.WalletActionType(a))
-	}
-
-	spy := &spyChannel{
-		BroadcastChannel: opChan[self],
-		nonce:            atomic.AddUint64(&nonceCtr, 1),
-		registered:       make(chan struct{}),
-		seen:             make(chan struct{}),
-	}
+	spy := &spyChannel{BroadcastChannel: opChan[self]}
 	ex := tbtc.VerifC24NewExecutor(
 		&fakeChain{signing: signing},
 		walletPK,
@@ -285,8 +289,15 @@ func exec(op string) (string, string) {
 		spy,
 		group.NewMembershipValidator(quietLogger{}, seats, signing),
 	)
-	pkh := ex.WalletPublicKeyHash()
+	return &follower{ex: ex, spy: spy, pkh: ex.WalletPublicKeyHash()}, true
+}
 
+const retransmissionWait = 3*netlocal.RetransmissionTick + 20*time.Millisecond
+
+// window runs one coordination window on the follower. cut < 0: the context ends after the
+// whole history was processed; cut = k: it ends as soon as k messages were processed.
+func (fw *follower) window(self, leader int, block uint64, allowed []tbtc.WalletActionType, msgs []msg, cut int) string {
+	st := fw.spy.arm()
 	ctx, cancel := context.WithCancel(context.Background())
 	defer cancel()
 	resCh := make(chan result, 1)
@@ -296,57 +307,148 @@ func exec(op string) (string, string) {
 				resCh <- result{panicked: e}
 			}
 		}()
-		p, faults, err := ex.ExecuteFollowerRoutine(ctx, opAddr[leader], block, allowed)
+		p, faults, err := fw.ex.ExecuteFollowerRoutine(ctx, opAddr[leader], block, allowed)
 		e := 0
 		if err != nil {
 			e = 1
 		}
 		resCh <- result{obs: fmt.Sprintf("prop=%s faults=%s err=%d", showProposal(p), showFaults(faults), e)}
 	}()
-	finish := func(r result) (string, string) {
+	finish := func(r result) string {
 		if r.panicked != nil {
 			panic(r.panicked) // reported as PANIC by hx
 		}
-		return r.obs, tagOf(r.obs, msgs, block)
+		return r.obs
 	}
 	select {
-	case <-spy.registered:
+	case <-st.registered:
 	case r := <-resCh:
 		return finish(r)
 	}
+	sendSentinel := func() bool {
+		return opChan[(self+1)%pool].Send(deadCtx, &otherMsg{Nonce: st.nonce}) == nil
+	}
+	retransmitting := false
 	for i, m := range msgs {
+		if i == cut && !sendSentinel() {
+			return "err:send"
+		}
 		var tm net.TaggedMarshaler
-		if m.kind == 0 {
-			h := pkh
+		sendCtx := deadCtx
+		if m.kind == 0 || m.kind == 2 {
+			h := fw.pkh
 			if m.w != 0 {
 				h[19] ^= byte(m.w)
 			}
 			tm = tbtc.VerifC24NewCoordinationMessage(group.MemberIndex(m.sid), m.blk, h, proposalFor(m.act, i+1))
+			if m.kind == 2 {
+				sendCtx = ctx // retransmitted (same seqno) until the window's context ends
+				retransmitting = true
+			}
 		} else {
 			tm = &otherMsg{Nonce: 0}
 		}
-		if err := opChan[m.net].Send(deadCtx, tm); err != nil {
-			return "err:send", "bad"
+		if err := opChan[m.net].Send(sendCtx, tm); err != nil {
+			return "err:send"
 		}
 	}
-	if err := opChan[(self+1)%pool].Send(deadCtx, &otherMsg{Nonce: spy.nonce}); err != nil {
-		return "err:send", "bad"
+	if retransmitting {
+		// lower bound only: the result must be the same whether or not a retransmission arrived
+		select {
+		case r := <-resCh:
+			return finish(r)
+		case <-time.After(retransmissionWait):
+		}
+	}
+	if (cut < 0 || cut >= len(msgs)) && !sendSentinel() {
+		return "err:send"
 	}
 	// wait (on conditions, not on time) until the follower returned or reached the sentinel
 	select {
 	case r := <-resCh:
 		return finish(r)
-	case <-spy.seen:
+	case <-st.seen:
 	case <-time.After(15 * time.Second):
-		return "HANG before-sentinel", "hang"
+		return "HANG before-sentinel"
 	}
 	cancel() // end of the active phase
 	select {
 	case r := <-resCh:
 		return finish(r)
 	case <-time.After(15 * time.Second):
-		return "HANG after-cancel", "hang"
+		return "HANG after-cancel"
 	}
+}
+
+func parseAllowed(s string) []tbtc.WalletActionType {
+	var allowed []tbtc.WalletActionType
+	for _, a := range hx.ParseInts(s) {
+		allowed = append(allowed, tbtc.WalletActionType(a))
+	}
+	return allowed
+}
+
+func exec(op string) (string, string) {
+	initOnce.Do(setup)
+	f := strings.Fields(op)
+	if len(f) == 0 {
+		return "bad-op", "bad"
+	}
+	switch {
+	case (f[0] == "follow" && len(f) == 7) || (f[0] == "frace" && len(f) == 8):
+		seatIDs := hx.ParseInts(f[1])
+		self, leader := hx.Atoi(f[2]), hx.Atoi(f[3])
+		block := hx.AtoU64(f[4])
+		msgs, ok := parseMsgs(f[6])
+		if !ok || self < 0 || self >= pool || leader < 0 || leader >= pool || len(seatIDs) > 255 || len(msgs) > 200 {
+			return "bad-op", "bad"
+		}
+		cut := -1
+		if f[0] == "frace" {
+			cut = hx.Atoi(f[7])
+			if cut < 0 || cut > len(msgs) {
+				return "bad-op", "bad"
+			}
+		}
+		fw, ok := newFollower(seatIDs, self)
+		if !ok {
+			return "bad-op", "bad"
+		}
+		obs := fw.window(self, leader, block, parseAllowed(f[5]), msgs, cut)
+		tag := tagOf(obs, msgs, block)
+		if f[0] == "frace" {
+			tag = "race+" + tag
+		}
+		return obs, tag
+	case f[0] == "fseq" && len(f) == 5:
+		seatIDs := hx.ParseInts(f[1])
+		self := hx.Atoi(f[2])
+		if self < 0 || self >= pool || len(seatIDs) > 255 {
+			return "bad-op", "bad"
+		}
+		fw, ok := newFollower(seatIDs, self)
+		if !ok {
+			return "bad-op", "bad"
+		}
+		allowed := parseAllowed(f[3])
+		var out, tags []string
+		for _, w := range strings.Split(f[4], "|") {
+			p := strings.Split(w, ";")
+			if len(p) != 3 {
+				return "bad-op", "bad"
+			}
+			leader, block := hx.Atoi(p[0]), hx.AtoU64(p[1])
+			msgs, ok := parseMsgs(p[2])
+			if !ok || leader < 0 || leader >= pool || len(msgs) > 200 {
+				return "bad-op", "bad"
+			}
+			obs := fw.window(self, leader, block, allowed, msgs, -1)
+			out = append(out, obs)
+			tags = append(tags, tagOf(obs, msgs, block))
+		}
+		return strings.Join(out, " / "), "fseq+" + strings.Join(tags, "+")
+	}
+	return "bad-op", "bad"
 }
 
 func tagOf(obs string, msgs []msg, block uint64) string {
@@ -364,9 +466,12 @@ func tagOf(obs string, msgs []msg, block uint64) string {
 	}
 	has := map[string]bool{}
 	for _, m := range msgs {
-		if m.kind != 0 {
+		if m.kind == 1 {
 			has["othertype"] = true
 		} else {
+			if m.kind == 2 {
+				has["retransmit"] = true
+			}
 			if m.blk != block {
 				has["wrongblock"] = true
 			}
@@ -375,7 +480,7 @@ func tagOf(obs string, msgs []msg, block uint64) string {
 			}
 		}
 	}
-	for _, k := range []string{"othertype", "wrongblock", "wrongwallet"} {
+	for _, k := range []string{"othertype", "wrongblock", "wrongwallet", "retransmit"} {
 		if has[k] {
 			t = append(t, k)
 		}
@@ -396,106 +501,159 @@ func seatsOf(seatIDs []int, op int) []int {
 	return out
 }
 
+type groupGen struct {
+	seatIDs []int
+	perm    []int
+	nops    int
+}
+
+func genGroup(r *hx.Rng) groupGen {
+	ns := r.Range(2, 10)
+	if r.Chance(1, 10) {
+		ns = 1
+	}
+	nops := r.Range(2, 5) // operators perm[0..nops-1] back the wallet, the rest of the pool are outsiders
+	perm := r.Perm(pool)
+	seatIDs := make([]int, ns)
+	for j := range seatIDs {
+		seatIDs[j] = perm[r.Intn(nops)]
+	}
+	return groupGen{seatIDs, perm, nops}
+}
+
+func (g groupGen) pickSelf(r *hx.Rng, leader int) int {
+	ns := len(g.seatIDs)
+	self := g.seatIDs[r.Intn(ns)]
+	if r.Chance(9, 10) {
+		for k := 0; k < 8 && self == leader; k++ {
+			self = g.seatIDs[r.Intn(ns)]
+		}
+	}
+	if r.Chance(1, 30) {
+		self = g.perm[pool-1] // follower that has no seat at all
+	}
+	return self
+}
+
+func genAllowed(r *hx.Rng) []int {
+	switch r.Intn(4) {
+	case 0:
+		return []int{3, 0}
+	case 1:
+		return []int{3, 2, 5, 4, 0}
+	case 2:
+		return []int{3, 1, 0}
+	}
+	var allowed []int
+	for a := 0; a <= 5; a++ {
+		if r.Bool() {
+			allowed = append(allowed, a)
+		}
+	}
+	return allowed
+}
+
+func (g groupGen) genMsgs(r *hx.Rng, self, leader int, block uint64, allowed []int, retransmit bool) []string {
+	seatIDs, perm, nops := g.seatIDs, g.perm, g.nops
+	ns := len(seatIDs)
+	nm := r.Range(0, 10)
+	if r.Chance(1, 12) {
+		nm = r.Range(10, 60)
+	}
+	leaderSeats := seatsOf(seatIDs, leader)
+	var ms []string
+	for j := 0; j < nm; j++ {
+		m := msg{kind: 0, blk: block, w: 0, act: r.Intn(6)}
+		if r.Chance(1, 2) && len(allowed) > 0 {
+			m.act = allowed[r.Intn(len(allowed))]
+		}
+		switch r.Intn(12) {
+		case 0: // the leader, correctly
+			m.net, m.sid = leader, leaderSeats[0]
+		case 1: // the leader with another of its seats
+			m.net, m.sid = leader, leaderSeats[r.Intn(len(leaderSeats))]
+		case 2, 3: // a member with one of its own seats (impersonation if not the leader)
+			k := r.Intn(ns)
+			m.net, m.sid = seatIDs[k], k+1
+		case 4: // somebody claims the leader's index
+			m.net, m.sid = perm[r.Intn(pool)], leaderSeats[0]
+		case 5: // member with somebody else's seat
+			m.net, m.sid = seatIDs[r.Intn(ns)], r.Range(1, ns)
+		case 6: // outsider
+			m.net, m.sid = perm[pool-1-r.Intn(pool-nops)], r.Range(1, ns)
+		case 7: // index out of the group
+			m.net = seatIDs[r.Intn(ns)]
+			m.sid = hx.Pick(r, []int{0, ns + 1, 255, 254, ns + 2})
+		case 8: // another type
+			m.kind, m.net, m.sid = 1, perm[r.Intn(pool)], 0
+			m.act = 0
+		case 9: // own index of the follower
+			ss := seatsOf(seatIDs, self)
+			if len(ss) > 0 {
+				m.sid = ss[r.Intn(len(ss))]
+			} else {
+				m.sid = r.Range(1, ns)
+			}
+			m.net = hx.Pick(r, []int{self, leader})
+		default:
+			m.net, m.sid = leader, leaderSeats[0]
+			if r.Bool() {
+				k := r.Intn(ns)
+				m.net, m.sid = seatIDs[k], k+1
+			}
+			if r.Bool() {
+				m.blk = hx.Pick(r, []uint64{block + 1, block - 1, block + 900, block - 900, 0})
+			} else {
+				m.w = r.Range(1, 255)
+			}
+		}
+		if retransmit && m.kind == 0 && r.Chance(1, 2) {
+			m.kind = 2
+		}
+		ms = append(ms, fmt.Sprintf("%d:%d:%d:%d:%d:%d", m.kind, m.net, m.sid, m.blk, m.w, m.act))
+	}
+	// duplicates of earlier messages
+	for j := 0; j < len(ms) && r.Chance(1, 4); j++ {
+		k := r.Intn(len(ms))
+		at := r.Range(k, len(ms))
+		ms = append(ms[:at], append([]string{ms[k]}, ms[at:]...)...)
+	}
+	return ms
+}
+
 func gen(r *hx.Rng, n int, tier string) []string {
 	var ops []string
 	for i := 0; i < n; i++ {
-		ns := r.Range(2, 10)
-		if r.Chance(1, 10) {
-			ns = 1
-		}
-		nops := r.Range(2, 5) // operators 0..nops-1 back the wallet, the rest of the pool are outsiders
-		perm := r.Perm(pool)
-		seatIDs := make([]int, ns)
-		for j := range seatIDs {
-			seatIDs[j] = perm[r.Intn(nops)]
-		}
-		leader := seatIDs[r.Intn(ns)]
-		self := seatIDs[r.Intn(ns)]
-		if r.Chance(9, 10) {
-			for k := 0; k < 8 && self == leader; k++ {
-				self = seatIDs[r.Intn(ns)]
-			}
-		}
-		if r.Chance(1, 30) {
-			self = perm[pool-1] // follower that has no seat at all
-		}
+		g := genGroup(r)
+		ns := len(g.seatIDs)
+		leader := g.seatIDs[r.Intn(ns)]
+		self := g.pickSelf(r, leader)
 		block := uint64(r.Range(1, 50)) * 900
-		var allowed []int
-		switch r.Intn(4) {
-		case 0:
-			allowed = []int{3, 0}
-		case 1:
-			allowed = []int{3, 2, 5, 4, 0}
-		case 2:
-			allowed = []int{3, 1, 0}
+		allowed := genAllowed(r)
+		switch k := r.Intn(40); {
+		case k < 5: // consecutive windows on one long-lived executor
+			nw := r.Range(2, 5)
+			var ws []string
+			for w := 0; w < nw; w++ {
+				if r.Chance(1, 2) {
+					leader = g.seatIDs[r.Intn(ns)]
+				}
+				if !r.Chance(1, 5) { // sometimes the same window again
+					block += 900
+				}
+				ws = append(ws, fmt.Sprintf("%d;%d;%s", leader, block,
+					hx.JoinStrs(g.genMsgs(r, self, leader, block, allowed, false))))
+			}
+			ops = append(ops, fmt.Sprintf("fseq %s %d %s %s", hx.JoinInts(g.seatIDs), self, hx.JoinInts(allowed), strings.Join(ws, "|")))
+		case k < 9: // cancellation racing with buffered messages
+			ms := g.genMsgs(r, self, leader, block, allowed, false)
+			ops = append(ops, fmt.Sprintf("frace %s %d %d %d %s %s %d",
+				hx.JoinInts(g.seatIDs), self, leader, block, hx.JoinInts(allowed), hx.JoinStrs(ms), r.Intn(len(ms)+1)))
 		default:
-			for a := 0; a <= 5; a++ {
-				if r.Bool() {
-					allowed = append(allowed, a)
-				}
-			}
+			ms := g.genMsgs(r, self, leader, block, allowed, k == 9)
+			ops = append(ops, fmt.Sprintf("follow %s %d %d %d %s %s",
+				hx.JoinInts(g.seatIDs), self, leader, block, hx.JoinInts(allowed), hx.JoinStrs(ms)))
 		}
-		nm := r.Range(0, 10)
-		if r.Chance(1, 12) {
-			nm = r.Range(10, 60)
-		}
-		leaderSeats := seatsOf(seatIDs, leader)
-		var ms []string
-		for j := 0; j < nm; j++ {
-			m := msg{kind: 0, blk: block, w: 0, act: r.Intn(6)}
-			if r.Chance(1, 2) && len(allowed) > 0 {
-				m.act = allowed[r.Intn(len(allowed))]
-			}
-			switch r.Intn(12) {
-			case 0: // the leader, correctly
-				m.net, m.sid = leader, leaderSeats[0]
-			case 1: // the leader with another of its seats
-				m.net, m.sid = leader, leaderSeats[r.Intn(len(leaderSeats))]
-			case 2, 3: // a member with one of its own seats (impersonation if not the leader)
-				k := r.Intn(ns)
-				m.net, m.sid = seatIDs[k], k+1
-			case 4: // somebody claims the leader's index
-				m.net, m.sid = perm[r.Intn(pool)], leaderSeats[0]
-			case 5: // member with somebody else's seat
-				m.net, m.sid = seatIDs[r.Intn(ns)], r.Range(1, ns)
-			case 6: // outsider
-				m.net, m.sid = perm[pool-1-r.Intn(pool-nops)], r.Range(1, ns)
-			case 7: // index out of the group
-				m.net = seatIDs[r.Intn(ns)]
-				m.sid = hx.Pick(r, []int{0, ns + 1, 255, 254, ns + 2})
-			case 8: // another type
-				m.kind, m.net, m.sid = 1, perm[r.Intn(pool)], 0
-				m.act = 0
-			case 9: // own index of the follower
-				ss := seatsOf(seatIDs, self)
-				if len(ss) > 0 {
-					m.sid = ss[r.Intn(len(ss))]
-				} else {
-					m.sid = r.Range(1, ns)
-				}
-				m.net = hx.Pick(r, []int{self, leader})
-			default:
-				m.net, m.sid = leader, leaderSeats[0]
-				if r.Bool() {
-					k := r.Intn(ns)
-					m.net, m.sid = seatIDs[k], k+1
-				}
-				if r.Bool() {
-					m.blk = hx.Pick(r, []uint64{block + 1, block - 1, block + 900, block - 900, 0})
-				} else {
-					m.w = r.Range(1, 255)
-				}
-			}
-			ms = append(ms, fmt.Sprintf("%d:%d:%d:%d:%d:%d", m.kind, m.net, m.sid, m.blk, m.w, m.act))
-		}
-		// duplicates of earlier messages
-		for j := 0; j < len(ms) && r.Chance(1, 4); j++ {
-			k := r.Intn(len(ms))
-			at := r.Range(k, len(ms))
-			ms = append(ms[:at], append([]string{ms[k]}, ms[at:]...)...)
-		}
-		ops = append(ops, fmt.Sprintf("follow %s %d %d %d %s %s",
-			hx.JoinInts(seatIDs), self, leader, block, hx.JoinInts(allowed), hx.JoinStrs(ms)))
 	}
 	return ops
 }
